@@ -9,6 +9,12 @@ package protocol
 //@   loop 1 invariant 0 <= r.pos && r.pos <= len(r.buf) && r.pos >= old(r.pos)
 //@
 //@ func ParseRequestHeader
-//@   ensures [C10.header_body_is_suffix] err == nil ==> len(result1) + 10 <= len(b)
+//@   replay_hint len(b) >= 4 && be16(b, 0) == 18 && be16(b, 2) == 3 && len(b) <= 40
+//@   ensures [C10.header_body_is_suffix] err == nil ==> len(result1) + 10 <= len(b) && result1 == b[len(b)-len(result1):]
 //@   ensures [C10.header_nonnil] err == nil ==> result0 != nil
 //@   ensures [C10.error_returns_nothing] err != nil ==> result0 == nil && len(result1) == 0
+//@   ensures [C10.header_fields] err == nil ==> result0.APIKey == int16(be16(b, 0)) && result0.APIVersion == int16(be16(b, 2)) && result0.CorrelationID == int32(be32(b, 4))
+//@   ensures [C10.client_id_null] err == nil ==> (result0.ClientID == nil) == (be16(b, 8) == 65535)
+//@   ensures [C10.client_id_value] err == nil && be16(b, 8) != 65535 ==> be16(b, 8) < 32768 && 10 + be16(b, 8) <= len(b) && *result0.ClientID == string(b[10 : 10+be16(b, 8)])
+//@   ensures [C10.body_after_client_id] err == nil ==> len(b) - len(result1) >= 10 + ite(be16(b, 8) == 65535, 0, be16(b, 8))
+//@   ensures [C10.short_header_rejected] len(b) < 10 ==> err != nil
